@@ -674,6 +674,37 @@ impl<A: ArenaAllocator> Drop for Arena<A> {
             let value = x.payload_ptr();
             x.0.drop_in_place(value);
         });
+        #[cfg(starlark_verif)]
+        self.verif_poison();
+    }
+}
+
+#[cfg(starlark_verif)]
+impl<A: ArenaAllocator> Arena<A> {
+    /// Overwrite all memory allocated in this (dead) arena with a poison pattern,
+    /// so that any access through a dangling pointer is detected deterministically,
+    /// and optionally never give that memory back to the allocator.
+    fn verif_poison(&mut self) {
+        if !crate::verif::poison_enabled() {
+            return;
+        }
+        let mut bytes = 0u64;
+        unsafe {
+            for bump in [&self.drop, &self.non_drop] {
+                for chunk in bump.iter_allocated_chunks_rev() {
+                    ptr::write_bytes(
+                        chunk.as_ptr() as *mut u8,
+                        crate::verif::POISON_BYTE,
+                        chunk.len(),
+                    );
+                    bytes += chunk.len() as u64;
+                }
+            }
+        }
+        if crate::verif::note_arena_poisoned(bytes) {
+            self.drop.verif_leak();
+            self.non_drop.verif_leak();
+        }
     }
 }
 
